@@ -177,6 +177,55 @@ def run(ctx: core.Ctx):
     thorough = ctx.tier == "thorough"
     dis = typed_attack(ctx, T, ctx.rng, thorough)
     nb = byte_attack(ctx, T, ctx.rng, thorough)
+    # user-declared functions: a converter may signal "cannot decode" with any exception (a dict lookup raises KeyError, an index raises
+    # IndexError, arithmetic raises ZeroDivisionError ...): such a value must not take the message handler down either
+    import copy as _copy
+    from ..realobj import StubConnection, subunit_class
+    from ynca.connection import YncaProtocolStatus as _St
+    from ynca.converters import ConverterBase
+
+    def _conv(exc_type):
+        class Picky(ConverterBase):
+            def to_value(self, value_string):
+                if value_string.startswith("bad"):
+                    raise exc_type("cannot decode " + value_string)
+                return value_string
+
+            def to_str(self, value):
+                return str(value)
+        return Picky()
+    nsyn = 0
+    for c in T["classes"][:: (1 if thorough else 3)]:
+        base = subunit_class(c["py"])
+        readable = [f for f in c["fns"] if f["get"]]
+        if not readable:
+            continue
+        d = getattr(base, readable[0]["attr"])
+        for exc_type in (KeyError, IndexError, TypeError, ZeroDivisionError, AttributeError, RuntimeError, LookupError):
+            extra = _copy.copy(d)
+            extra.converter = _conv(exc_type)
+            extra._name_override = "ZZPICKY"
+            sub = type("Synth" + c["py"] + exc_type.__name__, (base,), {"zzpicky": extra})
+            conn_ = StubConnection()
+            obj_ = sub(conn_)
+            nsyn += 1
+            ctx.case(("synthetic-converter", c["py"], exc_type.__name__))
+            try:
+                conn_.deliver(_St.OK, c["id"], "ZZPICKY", "good 1")
+                conn_.deliver(_St.OK, c["id"], "ZZPICKY", "bad value")           # undecodable for this function
+                conn_.deliver(_St.OK, c["id"], "ZZPICKY", "good 2")              # the line after it is processed normally
+                got = obj_.zzpicky
+                raised = None
+            except Exception as e:  # noqa: BLE001
+                raised, got = e, None
+            if raised is not None:
+                ctx.violation(f"{c['py']} subclass with a user-declared function whose converter raises {exc_type.__name__} for a value it cannot decode: the message handler "
+                              f"raised {type(raised).__name__} (on the reader thread this ends the connection)", {"path": "synthetic-converter", "class": c["py"], "exception": exc_type.__name__},
+                              {"kind": "synthetic-converter"})
+            elif got != "good 2":
+                ctx.violation(f"{c['py']} subclass, converter raising {exc_type.__name__}: after good / undecodable / good reports the attribute reads {got!r}",
+                              {"path": "synthetic-converter", "class": c["py"], "exception": exc_type.__name__}, {"kind": "synthetic-converter-value"})
+    ctx.cov["synthetic_converters"] = nsyn
     try:
         from . import c10_threads
         c10_threads.run(ctx, T)
